@@ -166,7 +166,7 @@ def ref_outcome(ctx, ob, S):
     if r['ok']: r['script'] = list(S.script); r['pend'] = len(S.script)
     if mode in (1, 4):
         if r['ok']:
-            r['hist'] = [2] * 7; r['seq'] = 4
+            r['hist'] = 2; r['seq'] = 4
             r['htop'] = dict(stack=S.stack, alt=S.alt, pc=S.pc, nop=S.nop)
     return r
 
